@@ -232,6 +232,9 @@ func (e *stakeEp) block(absent map[int]bool, mid []stakeOp, txs []stakeOp, dt ti
 				}
 				msgs = append(msgs, cm)
 				if _, has := e.valOK(w.ReadCtx(), txs[j].v); !has {
+					if old, dup := newCons[txs[j].v]; dup {
+						e.cons[2000+e.claims] = old // replaced by this claim: must never reach the consensus set
+					}
 					newCons[txs[j].v] = key.PubKey().Address()
 				} else {
 					e.cons[1000+e.claims] = key.PubKey().Address() // a key that must never reach the consensus set
@@ -943,6 +946,12 @@ func runStake(r *Rec, prop string) {
 						continue
 					}
 					txs = append(txs, stakeOp{"claim", v})
+					if r.Rng.Intn(3) == 0 {
+						// the same account claims AGAIN inside the same block, announcing another consensus key: one seat per
+						// account - the later claim replaces the pending one, the first key never reaches the consensus set
+						txs = append(txs, stakeOp{"claim", v})
+						r.Count("claim:twice-in-one-block")
+					}
 				}
 				touched[v] = true
 			}
